@@ -290,6 +290,10 @@ func (in *Interp) ensureInit(p *ssa.Package) {
 			return
 		}
 	}
+	// SSA bodies are built lazily per package: without this the initializer of
+	// a package nothing has called into yet has no blocks and is silently
+	// skipped on the first path only (later paths then diverge on replay)
+	p.Build()
 	initFn := p.Func("init")
 	if initFn == nil || initFn.Blocks == nil {
 		return
